@@ -1,6 +1,13 @@
 package main
 
-import "fmt"
+import (
+	"encoding/json"
+	"fmt"
+	"os"
+	"os/exec"
+	"path/filepath"
+	"strings"
+)
 
 func runExtraEngine(name string, w *World, o *options, res *checkResult) error {
 	switch name {
@@ -13,4 +20,71 @@ func runExtraEngine(name string, w *World, o *options, res *checkResult) error {
 	return fmt.Errorf("unknown engine %q", name)
 }
 
-func cmdReplay(args []string) int { return 2 }
+// cmdReplay re-examines a replay file written by a failed check: it prints the failed obligation, re-runs the
+// stored SMT query (the solver's answer and model are what the check saw) and, when the file carries a generated
+// test with concrete inputs, re-runs that test against the real code in /repo through a go test overlay.
+// Exit status: 1 = the violation reproduces (solver does not prove the obligation / the test confirms it), 0 = it does not.
+func cmdReplay(args []string) int {
+	if len(args) < 1 {
+		fmt.Fprintln(os.Stderr, "usage: govc replay <replay-file.json>")
+		return 2
+	}
+	data, err := os.ReadFile(args[0])
+	if err != nil {
+		fmt.Fprintln(os.Stderr, "govc replay:", err)
+		return 2
+	}
+	var rec map[string]any
+	if err := json.Unmarshal(data, &rec); err != nil {
+		fmt.Fprintln(os.Stderr, "govc replay:", err)
+		return 2
+	}
+	fmt.Printf("property    %v\nobligation  %v\nat          %v\nclaim       %v\nwhen found  solver=%v status=%v\n", rec["property"], rec["obligation"], rec["position"], rec["description"], rec["solver"], rec["solver_status"])
+	reproduces := false
+	if q, ok := rec["query_file"].(string); ok {
+		cmd := exec.Command("z3-new", "-T:60", q)
+		out, _ := cmd.CombinedOutput()
+		first := strings.SplitN(strings.TrimSpace(string(out)), "\n", 2)[0]
+		fmt.Printf("solver now  z3-new: %s (unsat = obligation proved; sat/unknown/timeout = not proved)\n", first)
+		if first != "unsat" {
+			reproduces = true
+		}
+	}
+	if rp, ok := rec["replay"].(map[string]any); ok {
+		if src, ok := rp["test_source"].(string); ok && src != "" {
+			dir, _ := os.MkdirTemp("", "govc-replay-")
+			defer os.RemoveAll(dir)
+			testFile := filepath.Join(dir, "zz_govc_replay_test.go")
+			_ = os.WriteFile(testFile, []byte(src), 0o644)
+			pos, _ := rec["position"].(string)
+			pkgDir := filepath.Join("/repo", filepath.Dir(strings.SplitN(pos, ":", 2)[0]))
+			ov, _ := json.Marshal(map[string]any{"Replace": map[string]string{filepath.Join(pkgDir, "zz_govc_replay_test.go"): testFile}})
+			ovFile := filepath.Join(dir, "overlay.json")
+			_ = os.WriteFile(ovFile, ov, 0o644)
+			rel, _ := filepath.Rel("/repo", pkgDir)
+			cmd := exec.Command("go", "test", "-overlay", ovFile, "-vet=off", "-count=1", "-timeout", "60s", "-run", "^TestGovcReplay$", "-v", "./"+rel+"/")
+			cmd.Dir = "/repo"
+			cmd.Env = append(os.Environ(), "GOFLAGS=-mod=mod", "GOPROXY=off", "GOSUMDB=off", "GOTOOLCHAIN=local")
+			out, _ := cmd.CombinedOutput()
+			for _, l := range strings.Split(string(out), "\n") {
+				if strings.Contains(l, "GOVC-REPLAY") {
+					fmt.Println("real code   " + strings.TrimSpace(l))
+				}
+			}
+			if strings.Contains(string(out), "GOVC-REPLAY: CONFIRMED") {
+				reproduces = true
+			}
+		}
+		if in, ok := rp["inputs"]; ok {
+			fmt.Printf("inputs      %v\n", in)
+		}
+	} else if n, ok := rec["replay_note"]; ok {
+		fmt.Printf("note        %v\n", n)
+	}
+	if reproduces {
+		fmt.Println("result      the recorded violation reproduces (stored query not proved / generated test confirms it on the real code)")
+		return 1
+	}
+	fmt.Println("result      the stored query is proved and no test confirms a violation")
+	return 0
+}
